@@ -733,6 +733,52 @@ func (t *tr) stackClass(fn string, k int) int64 {
 		return true
 	})
 	if len(found) != 2 {
+		// the allocation moved into a helper, or the variable has another name: the `case <x> <= <int>:` labels of a
+		// switch whose cases allocate with make(), in the function or the helpers it calls
+		found = nil
+		for _, g := range t.withCallees(fd, 2) {
+			if g.Body == nil {
+				continue
+			}
+			ast.Inspect(g.Body, func(n ast.Node) bool {
+				sw, ok := n.(*ast.SwitchStmt)
+				if !ok {
+					return true
+				}
+				var vals []int64
+				makes := 0
+				for _, st := range sw.Body.List {
+					cc, ok := st.(*ast.CaseClause)
+					if !ok {
+						continue
+					}
+					for _, e := range cc.List {
+						if be, ok := e.(*ast.BinaryExpr); ok && be.Op == token.LEQ {
+							if v, ok := intLit(be.Y); ok {
+								vals = append(vals, v)
+							}
+						}
+					}
+					ast.Inspect(cc, func(m ast.Node) bool {
+						if ce, ok := m.(*ast.CallExpr); ok {
+							if id, ok := ce.Fun.(*ast.Ident); ok && id.Name == "make" {
+								makes++
+							}
+						}
+						return true
+					})
+				}
+				if len(vals) == 2 && makes >= 2 && len(found) == 0 {
+					found = vals
+				}
+				return true
+			})
+			if len(found) == 2 {
+				break
+			}
+		}
+	}
+	if len(found) != 2 {
 		t.fail("%s: stack allocation switch not recognised", fn)
 		return 0
 	}
